@@ -456,19 +456,47 @@ func (c *Ctx) ruleS3(rule string) {
 		return out
 	}
 	brk, cnt := sentinel("BREAKFLAG"), sentinel("CONTINUEFLAG")
+	isBodyErr := func(v ssa.Value) bool {
+		ex, ok := x.Origin(v).(*ssa.Extract)
+		return ok && ex.Tuple == ssa.Value(bodyC) && ex.Index == 1
+	}
+	// with the body's error being BREAKFLAG: nothing of the loop runs any more and the
+	// function ends without passing the sentinel on (however the tests are arranged)
 	okB := brk != nil
 	if okB {
-		_, more := pathFrom(brk.Block().Succs[0].Instrs[0], func(in ssa.Instruction) bool {
-			return in == ssa.Instruction(cond) || in == ssa.Instruction(bodyC) || isStep(in)
-		}, nil)
-		okB = !more && x.breakEdgeReturnsNil(brk.Block().Succs[0].Instrs[0])
+		reach := x.reachUnderSentinel(f, bodyC, isBodyErr, "BREAKFLAG", nil)
+		for in := range reach {
+			if in == ssa.Instruction(cond) || in == ssa.Instruction(bodyC) || isStep(in) {
+				okB = false
+			}
+			if r, isR := in.(*ssa.Return); isR {
+				for _, pv := range x.PossibleValues(r.Results[1]) {
+					if pv.V != nil && isBodyErr(pv.V) {
+						okB = false
+					}
+					if pv.V != nil && !isConstNil(pv.V) && !isBodyErr(pv.V) {
+						// some other error: only acceptable when it cannot come from this path; be strict
+						if _, isCall := pv.V.(*ssa.Call); !isCall {
+							okB = false
+						}
+					}
+				}
+				for _, pv := range x.PossibleValues(r.Results[2]) {
+					if pv.V != nil {
+						if b, isB := constBool(pv.V); !isB || b {
+							okB = false
+						}
+					}
+				}
+			}
+		}
 	}
 	c.Check(rule, "ForStmt.Evaluate#break-ends-loop", okB, bodyC.Pos(), "a break from the body must end this loop normally: no further condition, step or body, and the sentinel is not passed on to an enclosing loop")
 	okC := cnt != nil
 	if okC {
-		// continue edge: reaches the condition again (through the step, checked above) and not a return of the sentinel
-		_, reaches := pathFrom(cnt.Block().Succs[0].Instrs[0], func(in ssa.Instruction) bool { return in == ssa.Instruction(cond) }, nil)
-		okC = reaches
+		// with the body's error being CONTINUEFLAG the condition is reached again
+		reach := x.reachUnderSentinel(f, bodyC, isBodyErr, "CONTINUEFLAG", func(in ssa.Instruction) bool { return in == ssa.Instruction(cond) })
+		okC = reach[cond]
 	}
 	c.Check(rule, "ForStmt.Evaluate#continue-goes-on", okC, bodyC.Pos(), "a continue from the body must proceed with the next iteration")
 	// other errors return that error; flag returns value
@@ -977,8 +1005,12 @@ func (c *Ctx) ruleS7(rule string) {
 				}
 				for _, v := range written(sc, idx) {
 					if vo, ok := v.(*ssa.Call); ok && vo.Call.StaticCallee() != nil && vo.Call.StaticCallee().Name() == "ValueOf" {
-						if ex, ok := x.Unwrap(vo.Call.Args[0]).(*ssa.Extract); ok && ex.Tuple == ssa.Value(coreCall) && ex.Index == 0 {
-							okW = true
+						// on executions through this core call (the wrapped result may sit in a
+						// variable shared by the four operators)
+						for _, w := range x.valuesVia(f, coreCall, vo, x.Unwrap(vo.Call.Args[0])) {
+							if ex, ok := x.Unwrap(w).(*ssa.Extract); ok && ex.Tuple == ssa.Value(coreCall) && ex.Index == 0 {
+								okW = true
+							}
 						}
 					}
 				}
